@@ -50,6 +50,8 @@ struct Bus {
   long idleRealSleepUs = 0;                     // real sleep per idle ppoll of the bus thread (stress mode: lets clients run)
   double realUsPerVirtualMs = 0;                // pacing: real microseconds slept per virtual millisecond that passes in ppoll
   double paceDebt = 0;
+  // false: time()/clock_gettime()/usleep() are forwarded to the real ones (libFuzzer's own bookkeeping between units); not touched by reset()
+  std::atomic<bool> virtualTime{true};
 
   void reset();
   void push(int64_t t, uint8_t b) { rx.push_back({t, b}); }
